@@ -49,6 +49,9 @@ type c18Case struct {
 	// that holds a third.Cloner (a type with hand-written DeepCopy/DeepCopyInto); what one generator learns about a type must
 	// not leak into the other
 	WithDeepCopy bool `json:"withdeepcopy,omitempty"`
+	// Rerun: the generator first runs over an earlier edition of the declarations (every declaration omits one more field);
+	// then the declarations are edited to what the case says and the generator runs again over the same directory
+	Rerun bool `json:"rerun,omitempty"`
 }
 
 var psTypes = []string{
@@ -117,6 +120,7 @@ func genC18(t *rapid.T) c18Case {
 	c.Grouped = len(c.Decls) >= 2 && rapid.IntRange(0, 4).Draw(t, "grouped") == 0
 	c.DotImport = rapid.IntRange(0, 4).Draw(t, "dotimport") == 0
 	c.WithDeepCopy = rapid.IntRange(0, 2).Draw(t, "withdeepcopy") == 0
+	c.Rerun = rapid.IntRange(0, 2).Draw(t, "rerun") == 0
 	return c
 }
 
@@ -389,6 +393,35 @@ func oracleC18(c c18Case) error {
 	if c.WithDeepCopy {
 		gens = []string{"deepcopy", "partialstruct"}
 	}
+	if c.Rerun {
+		earlier := c
+		earlier.Decls = append([]psDecl{}, c.Decls...)
+		for i := range earlier.Decls {
+			d := earlier.Decls[i]
+			o := c.origin(d.Origin)
+			for _, f := range o.Fields {
+				taken := f.Name == d.ReplaceField
+				for _, om := range d.Omit {
+					taken = taken || om == f.Name
+				}
+				if !taken {
+					d.Omit = append(append([]string{}, d.Omit...), f.Name)
+					break
+				}
+			}
+			earlier.Decls[i] = d
+		}
+		declFile := filepath.Join(dir, "decl", "decl.go")
+		if err := os.WriteFile(declFile, []byte(earlier.declSource()), 0o644); err != nil {
+			panic("harness: " + err.Error())
+		}
+		if res := mustRun(dir, []string{"./decl"}, gens, nil); res.Panic != "" || res.Failed {
+			return fmt.Errorf("the run over the earlier edition of the declarations fails: %s %s\n%s", clip(res.Panic, 400), clip(res.Err, 600), describe())
+		}
+		if err := os.WriteFile(declFile, []byte(c.declSource()), 0o644); err != nil {
+			panic("harness: " + err.Error())
+		}
+	}
 	res := mustRun(dir, []string{"./decl"}, gens, nil)
 	if res.Panic != "" {
 		return fmt.Errorf("the partialstruct generator panics: %s\n%s", clip(res.Panic, 600), describe())
@@ -489,6 +522,9 @@ func c18Features(c c18Case) []string {
 	}
 	if c.WithDeepCopy {
 		fs["deepcopy-generator-in-the-same-run"] = true
+	}
+	if c.Rerun {
+		fs["rerun-after-editing-the-declarations"] = true
 	}
 	out := make([]string, 0, len(fs))
 	for k := range fs {
